@@ -905,7 +905,8 @@ class GroupBy:
             for j, result in enumerate(results_one_value):
                 result = result[:-1]  # ignore null group
                 if self._group_key_pointers is None:
-                    pointer = slice(None)
+                    # all labels, but not the trailing slot for the null key
+                    pointer = slice(0, len(result))
                 else:
                     pointer = self._group_key_pointers[first_chunk_in + j]
                 chunk_count = counts_one_value[j][:-1]  # ignore null group
